@@ -52,6 +52,6 @@ Qed.
 (* Stellar addresses with nothing abstract but the ed25519 key test *)
 Theorem xlm_rt_c valid_pub t pub s : t < 256 -> bytes_ok pub -> length pub = (ed25519_compr_len - 1)%nat ->
   valid_pub 2 pub = true ->
-  xlm_encode crc16_xmodem AddrInst.b32_enc_nopad t pub = Ok s ->
-  xlm_decode valid_pub crc16_xmodem AddrInst.b32_dec t s = Ok pub.
+  xlm_encode crc16_xmodem AddrCodecs.b32_enc_nopad t pub = Ok s ->
+  xlm_decode valid_pub crc16_xmodem AddrCodecs.b32_dec t s = Ok pub.
 Proof. exact (Lemmas.AddrInst.xlm_rt crc16_xmodem valid_pub crc16_xmodem_len crc16_xmodem_ok t pub s). Qed.
